@@ -2,7 +2,7 @@
 (* Generator for C08: a dialect-sensitive element inside every nesting      *)
 (* construct, at depth 1 and 2.                                             *)
 EXTENDS PT_Dialect, Json
-Elements == {"quoted-names", "placeholder", "boolean", "array", "interval", "pagination", "groupby-alias", "string-value", "alias", "backslash-string", "json-value", "user-parameter"}
+Elements == {"quoted-names", "placeholder", "boolean", "array", "interval", "interval-dialect-kw", "pagination", "groupby-alias", "string-value", "alias", "backslash-string", "json-value", "user-parameter"}
 Constructs == {"top", "subquery-from", "subquery-join", "subquery-in", "subquery-select", "cte", "setop-base", "setop-operand", "insert-select", "create-as",
                \* a select as an operand of a term of the outer statement: function argument, comparison operand, CASE result
                "function-arg", "function-arg-orderby", "cmp-operand", "case-result"}
